@@ -31,6 +31,9 @@ func genSpecC06(c *Ctx, n int, mix string, k int) *rSpec {
 		palette = []int{pkReply, pkReplyHeld, pkUnsol, pkPrimOdd, pkPrimW, pkPrimOddW, pkBad, pkDup, pkReject}
 	case "ctrl":
 		palette = []int{pkReply, pkReplyHeld, pkCtrl, pkCtrl, pkReject, pkPrimOdd}
+	case "session": // C20: WithSessionIDValidation(true), own-session and foreign-session frames interleaved
+		sp.ValidateSession = true
+		palette = []int{pkReply, pkReplyHeld, pkForeign, pkForeign, pkForeignS9F1, pkUnsol, pkPrimOdd, pkDup, pkReject}
 	case "timeout":
 		sp.T3 = 150 * time.Millisecond
 		palette = []int{pkReply, pkReplyHeld, pkDrop, pkDropLate, pkCancel, pkCancelLate, pkReject, pkDup}
@@ -102,6 +105,8 @@ func runC06(c *Ctx) {
 		}
 		evalHistoryC06(c, sp)
 	}
+	// slow writes: T3 counts from the moment the primary was written, not from the call / the registration
+	c06SlowWrites(c)
 	// directed: one sender per peer behaviour
 	for pk := 0; pk < pkNone; pk++ {
 		if pk == pkCtrl {
@@ -431,7 +436,7 @@ func modelCheck(c *Ctx, prop string, sp *rSpec, h *rHistory, replay map[string]a
 	var ws []wf
 	for g, in := range h.In {
 		for _, fr := range in {
-			if i, ok := l.bySB[fr.SB]; ok && ((fr.IsData() && int(fr.Tag) == i) || ((fr.SType == 1 || fr.SType == 5) && fr.PType == 0)) {
+			if i, ok := l.bySB[fr.SB]; ok && ((fr.IsData() && int(fr.Tag) == i) || (fr.IsData() && l.snd[i].lib) || ((fr.SType == 1 || fr.SType == 5) && fr.PType == 0)) {
 				ws = append(ws, wf{fr.Stamp, fmt.Sprintf("%d>%d>%d", l.epOf[g], i, fr.SB)})
 			}
 		}
